@@ -202,7 +202,8 @@ def build(case: Case):
         txs = [t1, t2]
     elif ctx == 'nested':
         # a coding isoform that shares T1's first genomic exon start and runs 5 nt further right
-        ex2 = [(s, s + 4), (e + 2, e + 7)]
+        e2 = max(e, s + 4)            # (T1 may be shorter than 4 nt: keep the two exons of T2 apart)
+        ex2 = [(s, s + 4), (e2 + 2, e2 + 7)]
         t2 = TxSpec('ENST0002', GENE, case.strand, ex2, 1, 4, 0, 'complete')
         txs = [t2, t1]
     genes = [(GENE, case.strand, txs)]
